@@ -77,7 +77,12 @@ impl<'a> Pick<'a> for EntM {
 }
 impl<'a> Pick<'a> for LazyM {
     type Data = Read<'a, LazyUpdate>;
-    fn touch(_: &mut Self::Data) -> u32 { 0 }
+    // systems that hold the lazy-update resource really queue actions (several, so that systems of one stage push
+    // at the same time); the queue is drained by `maintain` after every dispatch
+    fn touch(d: &mut Self::Data) -> u32 {
+        for _ in 0..16 { d.exec(|_| {}); }
+        16
+    }
 }
 
 /// Instrumentation shared by the systems of one dispatcher.
@@ -290,6 +295,7 @@ fn new_world() -> World {
 
 /// Borrow state of resource `R`: n = not borrowed, s = shared, x = exclusive.
 fn probe<R: Resource>(w: &World) -> char {
+    if !w.has_value::<R>() { return 'n'; }
     let free = catch_unwind(AssertUnwindSafe(|| { let g = w.try_fetch_mut::<R>(); g.is_some() }));
     if let Ok(true) = free { return 'n'; }
     if let Ok(false) = free { return '?'; }
@@ -321,18 +327,27 @@ fn decl_line<'a, D: ShredSystemData<'a>>(w: &'a World) -> String {
     }
 }
 
+/// One table line: a FRESH world in which only this handle's own `SystemData::setup` has run (what a dispatcher's
+/// `setup` does for a system using it), then `fetch` and the borrow probe.
+macro_rules! decl_fresh {
+    ($D:ty) => {{
+        let mut w = World::new();
+        let r = catch_unwind(AssertUnwindSafe(|| { <$D as ShredSystemData>::setup(&mut w); }));
+        if r.is_err() { "panic".to_string() } else { decl_line::<$D>(&w) }
+    }};
+}
+
 fn table(out: &mut String) {
-    let w = new_world();
-    out.push_str(&format!("decl readstorage 0 => {}\n", decl_line::<ReadStorage<CA>>(&w)));
-    out.push_str(&format!("decl readstorage 1 => {}\n", decl_line::<ReadStorage<CB>>(&w)));
-    out.push_str(&format!("decl readstorage 2 => {}\n", decl_line::<ReadStorage<CC>>(&w)));
-    out.push_str(&format!("decl readstorage 3 => {}\n", decl_line::<ReadStorage<CZ>>(&w)));
-    out.push_str(&format!("decl writestorage 0 => {}\n", decl_line::<WriteStorage<CA>>(&w)));
-    out.push_str(&format!("decl writestorage 1 => {}\n", decl_line::<WriteStorage<CB>>(&w)));
-    out.push_str(&format!("decl writestorage 2 => {}\n", decl_line::<WriteStorage<CC>>(&w)));
-    out.push_str(&format!("decl writestorage 3 => {}\n", decl_line::<WriteStorage<CZ>>(&w)));
-    out.push_str(&format!("decl entities => {}\n", decl_line::<Entities>(&w)));
-    out.push_str(&format!("decl readlazy => {}\n", decl_line::<Read<LazyUpdate>>(&w)));
+    out.push_str(&format!("decl readstorage 0 => {}\n", decl_fresh!(ReadStorage<CA>)));
+    out.push_str(&format!("decl readstorage 1 => {}\n", decl_fresh!(ReadStorage<CB>)));
+    out.push_str(&format!("decl readstorage 2 => {}\n", decl_fresh!(ReadStorage<CC>)));
+    out.push_str(&format!("decl readstorage 3 => {}\n", decl_fresh!(ReadStorage<CZ>)));
+    out.push_str(&format!("decl writestorage 0 => {}\n", decl_fresh!(WriteStorage<CA>)));
+    out.push_str(&format!("decl writestorage 1 => {}\n", decl_fresh!(WriteStorage<CB>)));
+    out.push_str(&format!("decl writestorage 2 => {}\n", decl_fresh!(WriteStorage<CC>)));
+    out.push_str(&format!("decl writestorage 3 => {}\n", decl_fresh!(WriteStorage<CZ>)));
+    out.push_str(&format!("decl entities => {}\n", decl_fresh!(Entities)));
+    out.push_str(&format!("decl readlazy => {}\n", decl_fresh!(Read<LazyUpdate>)));
 }
 
 // ------------------------------------------------------------------ building and running
@@ -418,6 +433,7 @@ fn run_graph(g: &Graph, world: &mut World, threads: usize, reps: usize, spin: u6
         for _ in 0..reps {
             for i in 0..n { sh.enter[i].store(0, SeqCst); sh.exit[i].store(0, SeqCst); }
             d.dispatch(world);
+            world.maintain();
             for (i, s) in g.specs.iter().enumerate() {
                 for dn in &s.deps {
                     if let Some(j) = g.specs.iter().position(|x| &x.name == dn) {
